@@ -5,7 +5,10 @@ use riscv_analysis::parser::{InstructionProperties, ParserNode, RVStringParser, 
 use riscv_analysis::passes::DiagnosticLocation;
 use std::panic::{catch_unwind, AssertUnwindSafe};
 
-const STATEMENTS: [&str; 24] = [
+const STATEMENTS: [&str; 37] = [
+    // forms whose decoding looks at the token after the statement, and data directives with value lists
+    "jalr t0", "jalr t0, t1, 4", "jalr t0, 4(t1)", "jalr t0, 8", "lw a0, 12", "sw a1, 12", "sw a1, 12, t0",
+    ".word 1, 2", ".byte 7", ".half 1, 2, 3", ".asciz \"ab\"", ".space 4", ".align 2",
     "j main", "b main", "add t0, t1, t2", "addi sp, sp, -16", "lw a0, 4(sp)", "sw ra, 0(sp)", "lw a0, (sp)", "li a7, 10",
     "ecall", "ret", "jal main", "jal ra, main", "beq t0, t1, main", "bnez a0, main", "la a0, main", "mv a0, a1", "jr ra",
     "csrrw t0, 64, t1", "csrrwi t0, 64, 3", "lui t0, 5", "not t0, t1", "bgtz t0, main", "snez t0, t1", "neg a0, a0",
@@ -32,7 +35,7 @@ pub fn getany_search(_v: &serde_json::Value) -> i32 {
             let res = catch_unwind(AssertUnwindSafe(|| RVStringParser::parse_from_text(&text)));
             let (nodes, errors) = match res { Ok(x) => x, Err(_) => { println!("witness: parser panicked on {text:?}"); return 1; } };
             if !errors.is_empty() { println!("witness: {text:?} does not parse: {} error(s)", errors.len()); return 1; }
-            let inst = nodes.iter().find(|x| x.is_instruction());
+            let inst = nodes.iter().find(|x| x.is_instruction() || matches!(x, ParserNode::Directive(_)));
             let Some(node) = inst else { println!("witness: {text:?} produced no instruction node"); return 1; };
             match designated(&text, node) {
                 Some(d) if norm(&d) == norm(st) && d.starts_with(st.split(' ').next().unwrap()) && d.ends_with(st.chars().last().unwrap()) => {}
